@@ -182,7 +182,7 @@ pub fn case_strategy() -> impl Strategy<Value = SigCase> {
 
 fn worker(ctx: &Ctx) {
     quiet_panics();
-    let n = ctx.tier.pick(100, 4000);
+    let n = ctx.tier.pick(400, 4000);
     ctx.explore("real", "c18", case_strategy(), n, 200, |c, rep| check_case(ctx, c, rep));
 }
 
